@@ -278,7 +278,38 @@ def invariance_family(rng, ctx, K, a, b, classes):
     return ('invariance', u1, u2, tuple(sorted(set(classes))))
 
 
-def positions_case(rng, ctx, scn, K, mon):
+CONTAINERS = ('dataarray', 'dataarray', 'dataarray_2d', 'dataarray_binned', 'dataarray_int', 'dataset_1', 'dataset_3',
+              'dataset_no_items')
+
+
+def make_container(kind, coords, n):
+    """Every kind of object that carries beamline coordinates: the accessors depend on the coordinates only."""
+    if kind == 'dataarray':
+        return sc.DataArray(sc.ones(dims=['pixel'], shape=[n]), coords=coords)
+    if kind == 'dataarray_2d':
+        return sc.DataArray(sc.ones(dims=['tof', 'pixel'], shape=[2, n]), coords=coords)
+    if kind == 'dataarray_int':
+        return sc.DataArray(sc.arange('pixel', n, unit='counts'), coords=coords)
+    if kind == 'dataarray_binned':
+        sizes = np.arange(n) % 3
+        end = np.cumsum(sizes)
+        buf = sc.DataArray(sc.ones(dims=['event'], shape=[int(sizes.sum())], unit='counts'),
+                           coords={'tof': sc.arange('event', float(sizes.sum()), unit='us')})
+        binned = sc.bins(begin=sc.array(dims=['pixel'], values=end - sizes, unit=None, dtype='int64'),
+                         end=sc.array(dims=['pixel'], values=end, unit=None, dtype='int64'), dim='event', data=buf)
+        return sc.DataArray(binned, coords=coords)
+    if kind == 'dataset_1':
+        return sc.Dataset({'a': sc.ones(dims=['pixel'], shape=[n])}, coords=coords)
+    if kind == 'dataset_3':
+        return sc.Dataset({'a': sc.ones(dims=['pixel'], shape=[n]), 'b': sc.arange('pixel', n),
+                           'c': sc.zeros(dims=['pixel'], shape=[n], dtype='float32', with_variances=True)},
+                          coords=coords)
+    if kind == 'dataset_no_items':
+        return sc.Dataset(coords=coords)
+    raise ValueError(kind)
+
+
+def positions_case(rng, ctx, scn, K, mon, forced=None):
     """Accessors on data arrays / datasets, incl. translation invariance."""
     n = int(rng.integers(1, 33))
     unit = LEN_UNITS[rng.integers(0, 5)]
@@ -297,13 +328,13 @@ def positions_case(rng, ctx, scn, K, mon):
     # what the code will see are the rounded positions: recompute beams from them
     inc = sample - source
     sca = pos - sample[None, :]
-    container = 'dataset' if rng.random() < 0.3 else 'dataarray'
+    container = CONTAINERS[int(rng.integers(0, len(CONTAINERS)))] if forced is None else forced
+    ctx.hit('accessor container ' + container)
 
     def build(shift):
         coords = {'source_position': vec(source + shift, unit), 'sample_position': vec(sample + shift, unit),
                   'position': vec(pos + shift[None, :], unit)}
-        da = sc.DataArray(sc.ones(dims=['pixel'], shape=[n]), coords=coords)
-        return sc.Dataset({'a': da}) if container == 'dataset' else da
+        return make_container(container, coords, n)
 
     da = build(np.zeros(3))
     case = {'family': 'accessors', 'container': container, 'unit': unit, 'n': n,
@@ -437,7 +468,8 @@ def requirements(tier):
                           'total_beam_length', 'total_straight_beam_length_no_scatter', 'two_theta',
                           'accessor.two_theta', 'accessor.Ltotal_noscatter', 'invariance.rotation',
                           'invariance.translation', 'invariance.swap')}
-    return {'events': ev, 'forced': ['angle:' + c for c in ANGLE_CLASSES] + ['axis-aligned beamline, sample at origin', 'per-pixel incident, scalar scattered', 'beams along different dimensions']}
+    return {'events': ev, 'forced': ['angle:' + c for c in ANGLE_CLASSES] + ['axis-aligned beamline, sample at origin', 'per-pixel incident, scalar scattered', 'beams along different dimensions']
+            + ['accessor container ' + c for c in sorted(set(CONTAINERS))]}
 
 
 def run(shard, ctx):
@@ -473,12 +505,19 @@ def run(shard, ctx):
             a, b, classes = gen_pairs(rng, n, ctx)
             try:
                 ctx.case(invariance_family(rng, ctx, K, a, b, classes))
-                sig = positions_case(rng, ctx, scn, K, mon)
+            except Exception as e:  # noqa: BLE001
+                ctx.violation('kernel_raised_outer', f'{type(e).__name__}: {e}', {'family': 'invariance'})
+            kinds = sorted(set(CONTAINERS))
+            container = kinds[i % len(kinds)]  # every kind of container in every shard
+            try:
+                sig = positions_case(rng, ctx, scn, K, mon, forced=container)
                 ctx.case(sig)
                 if i < 2:
                     ctx.sample({'family': 'accessors', 'signature': sig})
             except Exception as e:  # noqa: BLE001
-                ctx.violation('kernel_raised_outer', f'{type(e).__name__}: {e}', {'family': 'families'})
+                mon.origin = 'direct'
+                ctx.violation('accessor_raised', f'accessor on a {container} raised {type(e).__name__}: {e}',
+                              {'family': 'accessors', 'container': container}, container=container)
     ctx.extra['mpmath_selftest'] = _selftest(ctx, rng)
 
 
